@@ -355,7 +355,17 @@ def run(ctx):
         ctx.viol("F4", fb, fb.node, "selection is not `getattr(node, name) == value`", construct="_filter_by_name comparison")
     if ga:
         b_ = ga[0]
-        if not (len(b_.args) >= 2 and norm(b_.args[0]) == nodep and norm(b_.args[1]) == namep):
+        from .common import resolve_local as _rl2
+        recv_ = _rl2(fb, b_.args[0]) if b_.args else None
+        if isinstance(recv_, ast.Name) and recv_.id != nodep and b_.args and isinstance(b_.args[0], ast.Name):
+            # `attr = node; attr = getattr(attr, name)`: the receiver is the binding that reaches the read
+            from .common import reaching_def_nodes
+            cfg_ = typer_for(ctx).cfg_of(fb)
+            at_ = [cn_ for cn_ in cfg_.nodes if cn_.ast is not None and cn_.kind == "stmt" and any(x is b_ for x in ast.walk(cn_.ast))]
+            ds_ = reaching_def_nodes(at_[0], b_.args[0].id) if at_ else None
+            if ds_ and len(ds_) == 1:
+                recv_ = ds_[0].ast.value
+        if not (len(b_.args) >= 2 and (norm(b_.args[0]) == nodep or (recv_ is not None and norm(recv_) == nodep)) and norm(b_.args[1]) == namep):
             ctx.viol("F4", fb, b_, "attribute read is not getattr(node, name)")
     ctx.floor("F1", 16)
     ctx.floor("F2", 18)
